@@ -108,7 +108,7 @@ class _NullAlg:
 
 
 def run_impl(kind, cur, has_ev, pilot, voltage, period, newcomer_offset=0, rereg=False, sibling=False,
-             variant=0, pilot2=None, via_network=False, ptype=0):
+             variant=0, pilot2=None, via_network=False, ptype=0, nan_probe=False, reload_net=False):
     from datetime import datetime
     from acnportal.acnsim.models import EV, Battery
     from acnportal.acnsim.models.evse import InvalidRateError, StationOccupiedError
@@ -179,7 +179,19 @@ def run_impl(kind, cur, has_ev, pilot, voltage, period, newcomer_offset=0, rereg
         end = (ev.energy_delivered, ev._battery._current_charge) if ev else None
         out.update(accepted2=err2 is None, error2=err2, current_pilot2=float(evse.current_pilot),
                    charge_calls2=calls[n0:], ev_touched2=(mid != end))
-    # what schedulers are told: through the network info store and the Interface
+    # NaN is never an allowable pilot: it must be rejected without touching anything
+    if nan_probe:
+        nb = (float(evse.current_pilot), list(calls), (ev.energy_delivered, ev._battery._current_charge) if ev else None)
+        nerr = send(float("nan"))
+        na = (float(evse.current_pilot), list(calls), (ev.energy_delivered, ev._battery._current_charge) if ev else None)
+        out["nan_rejected"] = (nerr == "InvalidRateError")
+        out["nan_untouched"] = (str(nb) == str(na))
+    # what schedulers are told: through the network info store and the Interface; for a share of
+    # the cases on a network that went through to_json/from_json (station "T" is registered
+    # before "S", i.e. not in lexicographic order)
+    if reload_net and ev is None:
+        net = ChargingNetwork.from_json(net.to_json())
+        evse = net._EVSEs["S"]
     sim = Simulator(net, _NullAlg(), EventQueue(), datetime(2020, 1, 1), period=period, verbose=False)
     iface = Interface(sim)
     info = iface.infrastructure_info()
@@ -282,7 +294,9 @@ def gen_cases(rng, n, tier):
                 else:
                     pilot2 = float(rng.choice([0, 6, 8, 16, 32, 33, -1, rng.uniform(-2, 70)]))
             amb = amb or (pilot2 is not None and any(abs(F(pilot2) - t) < F(1, 10**9) for t in ths))
-            impl = run_impl(kind, cur, has_ev, pilot, voltage, period, off, rereg, sibling, variant, pilot2, via_network, ptype)
+            nan_probe = rng.random() < 0.25
+            reload_net = rng.random() < 0.3
+            impl = run_impl(kind, cur, has_ev, pilot, voltage, period, off, rereg, sibling, variant, pilot2, via_network, ptype, nan_probe, reload_net)
             p2_coq = "None" if pilot2 is None else "(Some %s)" % q(pilot2)
             coq = ("{| c_kind := %s; c_cur := %s; c_ev := %s; c_pilot := %s; c_voltage := %s; c_period := %s;\n"
                    "   i_accepted := %s; i_error := %s; i_current_pilot := %s; i_charge_calls := %s;\n"
@@ -297,7 +311,8 @@ def gen_cases(rng, n, tier):
                 q(impl.get("current_pilot2", 0)),
                 coq_list([coq_list([q(x) for x in c]) for c in impl.get("charge_calls2", [])]))
             inp = dict(kind=kind, cur=cur, has_ev=has_ev, pilot=pilot, voltage=voltage, period=period, newcomer_offset=off, rereg=rereg, sibling=sibling,
-                       variant=variant, pilot2=pilot2, via_network=via_network, ptype=ptype)
+                       variant=variant, pilot2=pilot2, via_network=via_network, ptype=ptype,
+                       nan_probe=nan_probe, reload_net=reload_net)
             cases.append(dict(input=inp, impl=impl, coq=coq, ambiguous=amb, kind="%s/%s" % (kind[0], "ev" if has_ev else "noev"),
                               sig=[kind, pilot, has_ev], nontrivial=True))
     return cases[:n]
@@ -342,6 +357,8 @@ def monitor(case):
                 return "rejected second pilot raised %s" % i["error2"]
             if i["current_pilot2"] != i["current_pilot"] or i["charge_calls2"] or i["ev_touched2"]:
                 return "rejected second pilot changed state (station pilot %r -> %r)" % (i["current_pilot"], i["current_pilot2"])
+    if "nan_rejected" in i and not (i["nan_rejected"] and i["nan_untouched"]):
+        return "a NaN pilot was %s" % ("accepted" if not i["nan_rejected"] else "rejected but state changed")
     if ordered and not all(i["advertised_accepted"]):
         return "an advertised value is not accepted"
     if ordered and not inp.get("sibling") and i.get("adv_max_via_network") is not None:
@@ -371,5 +388,6 @@ def replay(w):
     inp = w["case"]
     kind = tuple(tuple(x) if isinstance(x, list) else x for x in inp["kind"])
     impl = run_impl(kind, inp["cur"], inp["has_ev"], inp["pilot"], inp["voltage"], inp["period"], inp.get("newcomer_offset", 0), inp.get("rereg", False), inp.get("sibling", False),
-                    inp.get("variant", 0), inp.get("pilot2"), inp.get("via_network", False), inp.get("ptype", 0))
+                    inp.get("variant", 0), inp.get("pilot2"), inp.get("via_network", False), inp.get("ptype", 0),
+                    inp.get("nan_probe", False), inp.get("reload_net", False))
     return monitor(dict(input=dict(inp, kind=kind), impl=impl))
